@@ -15,7 +15,7 @@ CLAIMS = {
  "C01": ("Client-side proof verifiers under functional contracts: ahtree.Eval*/Verify* and htree.VerifyInclusion equal recursive reference "
          "spec functions (loop invariants, no bound on proof length); store.VerifyLinearProof / VerifyLinearAdvanceProof / VerifyDualProof / "
          "VerifyDualProofV2 have one named postcondition per mandatory step of docs/security/PROOFS.md in the direction accept ==> step, plus the "
-         "converse (honest shape ==> accept); none of them panics for any input. Narrower than the property: verifier side only; server-side "
+         "converse (honest shape ==> accept); none of them panics for any input. Client side (pkg/client, typestate order rules over the real verified operations verifiedGet, VerifiedSet, VerifiedTxByID, VerifiedSetReferenceAt, VerifiedZAddAt, VerifyRow, stream variants): a new trusted state is stored and success is reported only after the inclusion proof verified (boolean verdict true), the dual proof verified unless there is no previously trusted state (the else branch of the source comparison state.TxId > 0), and the state signature was checked whenever a signing key is configured; verifyDualProof reports success only after store.VerifyDualProof returned true. Narrower than the property: the values the client passes (ids, hashes) are not decided at the typestate level; server-side "
          "completeness over all histories, cross-call soundness (Merkle consistency theorem) and collision resistance are not machine-checked.",
          "DESIGN.md 3 (C01)"),
  "C02": ("The precommit ring buffer against its abstract sequence: put/readAhead/advanceReader/recedeWriter/freeSlots preserve the representation "
@@ -44,7 +44,7 @@ CLAIMS = {
          "included), restore the four SQL-level counters, are a no-op on error and write only the SQLTx (checked frame); a harness proves that "
          "RollbackToSavepoint leaves the store transaction untouched and the harness stating the property's clause (writes after the savepoint are undone) is "
          "the known finding; Cancel and the first part of Commit keep the one-shot discipline (already-closed error, same store tx); every invalidation of the engine-wide "
-         "catalog cache bumps the cache version (typestate order rule). Not decided: statement "
+         "catalog cache bumps the cache version (typestate order rule). With Go maps modelled as heap objects: Savepoint records under the given name a fresh, non-nil state holding the two scalar counters and FRESH copies of the two per-table key maps that contain nothing but entries of the live maps (subset direction, for every key); RollbackToSavepoint / ReleaseSavepoint fail exactly when the name is absent, restore from the recorded state, consume the savepoint and leave the other entries on error; harnesses: Savepoint; arbitrary counter changes; RollbackToSavepoint finds the savepoint, restores the counters and cannot be repeated; a savepoint is released once. Not decided: that the copies are COMPLETE (range over a map yields an arbitrary present key: no visited set), statement "
          "execution, atomicity and isolation over programs and sessions, pgsql front end.",
          "DESIGN.md 3 (C13), 11"),
  "C05": ("Sequential clauses of MVCC over the real OngoingTx code: GetWithFilters / GetWithPrefixAndFilters / MarkPrefixScanned / key readers record exactly one "
@@ -73,13 +73,18 @@ CLAIMS = {
          "DESIGN.md 3 (C07), 11"),
  "C08": ("Verifier half of the property: ahtree.EvalInclusion / EvalLastInclusion / EvalConsistency equal the recursive reference definitions of "
          "path evaluation and VerifyInclusion / VerifyLastInclusion / VerifyConsistency accept exactly when the shape conditions hold and the "
-         "evaluated root equals the claimed one (both directions); htree.VerifyInclusion likewise. The tree generators (Append, BuildWith, "
-         "InclusionProof, consistency proofs, rollback) are not decided.",
+         "evaluated root equals the claimed one (both directions); htree.VerifyInclusion likewise. Generator half, htree only: New builds the "
+         "representation invariant (level count, power-of-two row lengths, separation of the rows); BuildWith under that invariant never panics, "
+         "terminates, fails exactly when the input is wider than maxWidth and then writes nothing, sets the width, and gives the empty tree the "
+         "hash of the empty string; InclusionProof never panics for ANY index (a negative index was a defect, repaired), terminates, fails exactly for "
+         "indices outside [0, width), returns a fresh proof with Leaf/Width set and fewer terms than leaves (one index obligation excluded: solver budget). "
+         "NOT decided: that the levels BuildWith computes equal the reference construction (contract written, does not discharge within budget), the ahtree "
+         "generators (Append, inclusion/consistency proofs, ResetSize, OpenWith).",
          "DESIGN.md 3 (C08)"),
  "C09": ("Integrity-checked read paths: readValueAt returns a nil error (without skipIntegrityCheck) only if it filled the whole buffer and the "
          "SHA-256 of the bytes equals the expected hash, on every return path incl. the cache path; ReadValue / valueRef.Resolve return a value only "
          "if its hash equals the entry's hash (known finding: vLen == 0); buildAndValidateHtree returns nil only if the Alh recomputed from the parsed "
-         "header equals the stored one; TxReader.Read checks the hash chain in both directions; the parsers on the tx-read path never panic. "
+         "header equals the stored one; TxReader.Read checks the hash chain in both directions; the parsers on the tx-read path never panic; the indexer reads transactions from the tx log only with the integrity check on and only committed ones (call-site assertion in indexSince). "
          "Narrower: open-time scan, index rebuild, exports, compressed logs; binding (collision resistance) is an assumption.",
          "DESIGN.md 3 (C09)"),
  "C10": ("Node-local part of the B-tree: leaf/inner indexOf, findLeafNode, get, getBetween, history and lastUpdateBetween (in-memory part), "
@@ -89,12 +94,12 @@ CLAIMS = {
  "C14": ("ExportTx releases _valBsMux on every return path and in every loop iteration (typestate level); multiapp.DiscardUpto removes chunk i "
          "only if (i+1)*fileSize <= off and i < currAppID, errors if off > size and leaves fileSize/currAppID/currApp unchanged; "
          "decodeOffset(encodeOffset(o, id)) == (id, o); the truncation protocol commits the SQL catalog copy (with the truncation marker) before any value-log data "
-         "is discarded and reports success only after that commit (typestate order rules on vlogTruncator.TruncateUptoTx and db.CopySQLCatalog). The tombstone computation of TruncateUptoTx, racing writers and the SQL catalog copy are not decided.",
+         "is discarded and reports success only after that commit (typestate order rules on vlogTruncator.TruncateUptoTx and db.CopySQLCatalog). Tombstone computation of (*ImmuStore).TruncateUptoTx under a value contract over the real closures and the real map: every offset handed to DiscardUpto for value log v is at most the first-entry offset of EVERY transaction in [minTxID, committed id as of the call] whose first entry lies in v (loop invariants over a rigid transaction id; ghost functions for the stored first entry, defined by the ASSUMED postcondition of readTxOffsetAt); all obligations of the function incl. safety and loop frames discharge. Not decided: entries other than the first of a transaction, racing writers, the SQL catalog copy contents.",
          "DESIGN.md 3 (C14)"),
  "C15": ("Round trip and order lemmas as loop-free harnesses over the REAL encoders/decoders: SQL key encodings of INTEGER, BOOLEAN, UUID, FLOAT, "
          "TIMESTAMP, NULL (round trip, order iff byte order, equal iff identical; FLOAT except the known -0.0/+0.0 finding), VARCHAR/BLOB key round "
          "trip for every maxLen, row value codecs, EncodeID, encodeOffset/decodeOffset, TxHeader Bytes/ReadFrom (v0, v1 without metadata), tx metadata "
-         "attribute codecs, tbtree cLogEntry. Bounded stand-in (labelled): VARCHAR/BLOB key ORDER for maxLen <= 8. Not decided: documents, JSON, "
+         "attribute codecs, tbtree cLogEntry. VARCHAR/BLOB key ORDER is proved for EVERY maxLen and all payloads incl. NUL bytes and the empty payload (no bound): witness lemmas over the first differing index plus six exhaustive case harnesses through the real EncodeRawValueAsKey, with the first-difference / first-non-NUL index functions proved as loops; it replaces the former bounded stand-in (maxLen <= 8). Assumed: bytes.Compare is the lexicographic comparison; the propositional combination of the six cases. Not decided: documents, JSON, "
          "protobuf conversions, map-backed metadata sets.",
          "DESIGN.md 3 (C15)"),
  "C16": ("No-panic sweep with loop invariants over the decoding entry points: store (TxHeader/TxMetadata/KVMetadata ReadFrom, attribute "
@@ -113,8 +118,11 @@ CLAIMS = {
  "C17": ("singleapp.AppendableFile: every public method preserves the representation invariant, never panics, and meets the size arithmetic of a "
          "byte log (Append returns the previous size and grows it by the bytes written; SetOffset(o) truncates to o or fails without effect; "
          "flush/sync/ReadAt/DiscardUpto leave the size unchanged in every outcome; ReadAt returns at most size-off bytes); multiapp routes offsets "
-         "to chunk off/fileSize at inner offset off%fileSize, Append splits at multiples of fileSize and terminates. Byte CONTENTS of the log, "
-         "reopen persistence, compression and remote storage are not decided.",
+         "to chunk off/fileSize at inner offset off%fileSize, Append splits at multiples of fileSize and terminates. Byte CONTENTS of the in-memory part (write buffer): "
+         "write/Append of data that fits the free buffer space store exactly the given bytes behind the unflushed window and leave every older byte of the window unchanged, and return the logical offset of the first new byte; "
+         "SetOffset keeps a prefix of the window; readAt/ReadAt return, for every offset at or beyond the flushed file offset, the window byte at that position, also for reads that start in the file part (a defect there was repaired); "
+         "harness: SetOffset back into the file, Append, ReadAt across the rewind point returns the new bytes from the rewind point on, never the file's. "
+         "Not decided: bytes of the FILE part (no ghost file), appends that flush inside the call (size arithmetic only), reopen persistence, compression, remote storage; some valid content obligations are excluded for solver time and listed in the evidence.",
          "DESIGN.md 3 (C17)"),
 }
 
